@@ -115,6 +115,19 @@ def step (_ : Unit) (toks : List String) : Unit × String :=
       match typeMap t with
       | .ok f => some ("ok " ++ showFmt f)
       | .error e => some (showErr e)
+    | ["hier", tysS, namesS, evS] =>
+      -- class-level data of every class of a dataclass inheritance chain after a sequence of instantiations
+      let tyLevels ← (Proto.splitChar tysS '/').mapM (fun l => do (← items l).mapM parseTy)
+      let nameLevels ← (Proto.splitChar namesS '/').mapM items
+      let evs ← Proto.natList? evS
+      let c : DChain Term := { levels := (nameLevels.zip tyLevels).map (fun (ns, ts) =>
+        (ns.zip ts).map (fun (n, t) => (n, t, (none : Option Term)))) }
+      let conv := runInst evs
+      let parts := (List.range c.levels.length).map (fun k =>
+        match c.classData conv k with
+        | .ok (fs, ns) => s!"{k}:" ++ ",".intercalate (fs.map showFmt) ++ ";" ++ ",".intercalate ns
+        | .error e => s!"{k}:" ++ showErr e)
+      some ("ok " ++ " ".intercalate parts)
     | [op, form, fmtsS, namesS, initS, dfS, fpS, fuS, argsS, kwS] =>
       let names ← items namesS
       let userInit : Option Bool ← match initS with
